@@ -7,6 +7,7 @@ import (
 	"go/types"
 	"math/big"
 	"strings"
+	"time"
 
 	"golang.org/x/tools/go/ssa"
 )
@@ -178,6 +179,8 @@ type Hooks struct {
 	InitGlobal func(it *Interp, g *ssa.Global, obj int) bool
 	// MaxSteps bounds the work.
 	MaxSteps int
+	// MaxTime bounds the wall-clock time of one abstract run (default 40 s; the slowest run on the unchanged tree takes a few seconds).
+	MaxTime time.Duration
 	// Polys enables exact polynomial tracking (poly.go).
 	Polys bool
 	// MaxForks bounds the number of undecided branches explored on both sides (0: none).
@@ -186,6 +189,7 @@ type Hooks struct {
 
 // Interp is one run of the abstract interpreter.
 type Interp struct {
+	started    time.Time
 	St         *State
 	H          Hooks
 	Findings   []Finding
@@ -214,7 +218,10 @@ func NewInterp(h Hooks) *Interp {
 	if h.MaxSteps == 0 {
 		h.MaxSteps = 4000000
 	}
-	return &Interp{St: &State{}, H: h, seen: map[string]bool{}, symInfo: map[string]Val{}, globals: map[*ssa.Global]int{}, InstrsSeen: map[ssa.Instruction]bool{}, ValOf: map[ssa.Value]Val{}}
+	if h.MaxTime == 0 {
+		h.MaxTime = 40 * time.Second
+	}
+	return &Interp{started: time.Now(), St: &State{}, H: h, seen: map[string]bool{}, symInfo: map[string]Val{}, globals: map[*ssa.Global]int{}, InstrsSeen: map[ssa.Instruction]bool{}, ValOf: map[ssa.Value]Val{}}
 }
 
 func (it *Interp) flag(kind, msg string, in ssa.Instruction) {
@@ -384,6 +391,10 @@ func (it *Interp) runBlocks(f *frame, b, prev *ssa.BasicBlock) AnyVal {
 			it.steps++
 			if it.steps > it.H.MaxSteps {
 				it.Err = fmt.Errorf("step limit exceeded in %s", fn.Name())
+				return OpaqueV{"error"}
+			}
+			if it.steps&0x3ff == 0 && time.Since(it.started) > it.H.MaxTime {
+				it.Err = fmt.Errorf("time budget of one abstract run (%v) exceeded in %s: the exploration does not converge", it.H.MaxTime, fn.Name())
 				return OpaqueV{"error"}
 			}
 			it.InstrsSeen[in] = true
